@@ -21,7 +21,7 @@ RULE = ('matrices N in 1..3000 (quick 1..400) x dtypes {u1,u2,u4,u8 big/little e
 ASSUMPTIONS = ['tolerance rtol 1e-6 (integer/float64 containers), 2e-5 (float32 containers: single-precision reductions are legitimate)',
                'geometric statistics judged on strictly positive columns only']
 MIN_CHECKS = {'quick': 15000, 'thorough': 300000}
-REQUIRED_COUNTERS = ['chk:stats', 'chk:container', 'chk:identity']
+REQUIRED_COUNTERS = ['chk:stats', 'chk:container', 'chk:identity', 'chk:form']
 
 NAMES = monitors.STATS
 
@@ -69,6 +69,12 @@ def chan_forms(rng, s):
              ('list-pos', pos, pos), ('list-name', [s.channels[q] for q in pos], pos),
              ('single-list', [s.channels[p]], [p]),
              ('mixed', [s.channels[q] if i % 2 else q for i, q in enumerate(pos)], pos)]
+    # other legal spellings of the list forms (tuple / ndarray / NumPy integers and strings): a refusal of one of
+    # these is observed only ('x:' prefix), an accepted one is judged like every other form
+    names = [s.channels[q] for q in pos]
+    for base in (pos, names):
+        fn_, val = core.pick_form(rng, base)
+        forms.append(('x:' + fn_, val, pos))
     return forms
 
 
@@ -109,6 +115,12 @@ def run(ctx):
                     desc = dict(stat=st, container=cname, dtype=str(s.dtype), N=int(s.shape[0]), form=fname, channels=ch)
                     with np.errstate(all='ignore'):
                         o = core.attempt(fn, s, ch)
+                    if fname.startswith('x:'):
+                        ctx.counters['chk:form'] += 1
+                        if o.raised:
+                            ctx.note('form-refused:' + fname[2:])
+                            continue
+                        desc['channels'] = core.jsonable(ch)
                     if not ctx.check(not o.raised, 'stats:valid-call-refused:' + st, cid,
                                      exc=core.exc_str(o.exc) if o.raised else None, **desc):
                         continue
